@@ -538,5 +538,7 @@ def run(chk):
     rule_who(chk)
     rule_later(chk)
     from . import c12
+    from . import c19
+    c19.rule_writer(chk)  # a destination wrapped in the threaded writer: one failing call must not stop it from receiving every later message
     c12.rule_remove(chk)  # 'every currently registered destination': unregistering one entry removes exactly that entry
     common.rule_forwarding(chk, "C08", keys=[("_output", "Destinations.send"), ("_output", "Destinations.add"), ("_output", "Destinations.remove"), ("_output", "Logger.write"), ("_action", "log_message"), ("_action", "Action.log")])
